@@ -200,7 +200,7 @@ def judge(cls, par_index, hist, named, reparam=None):
         if nv:
             gen.setdefault(nv, []).append(c)
     ref = {}
-    for sense, e, label in ref_sc:
+    for sense, e, label, _at in ref_sc:
         nv = nvec(R.functional_vec(e, nP, nF), sense)
         if nv:
             ref.setdefault(nv, []).append(label)
